@@ -1,0 +1,59 @@
+//go:build verif
+
+// Contracts for govc (see /verif/DESIGN.md). Comment-only; compiled only with -tags verif.
+
+package util
+
+//@ property C07 C09 C12
+
+// ---- byte pools by size class ------------------------------------------------------------------
+// poolsize(p): the length of the buffers pool p hands out (ghost attribute of a sync.Pool)
+//@ pure func poolsize(p *sync.Pool) int
+//@ pure func pow2(k int) int :=
+//@     k == 0 ? 1 : k == 1 ? 2 : k == 2 ? 4 : k == 3 ? 8 : k == 4 ? 16 : k == 5 ? 32 : k == 6 ? 64 : k == 7 ? 128 : k == 8 ? 256 : k == 9 ? 512
+//@   : k == 10 ? 1024 : k == 11 ? 2048 : k == 12 ? 4096 : k == 13 ? 8192 : k == 14 ? 16384 : k == 15 ? 32768 : k == 16 ? 65536 : k == 17 ? 131072
+//@   : k == 18 ? 262144 : k == 19 ? 524288 : k == 20 ? 1048576 : k == 21 ? 2097152 : k == 22 ? 4194304 : k == 23 ? 8388608 : k == 24 ? 16777216
+//@   : k == 25 ? 33554432 : k == 26 ? 67108864 : k == 27 ? 134217728 : k == 28 ? 268435456 : k == 29 ? 536870912 : k == 30 ? 1073741824
+//@   : k == 31 ? 2147483648 : k == 32 ? 4294967296 : 0
+// representation invariant of BytesPoolBy2n: 32 non-nil pools, pool k holds buffers of length 2^k
+//@ pure func poolsok(pools BytesPoolBy2n) bool :=
+//@     len(pools) == 32 && forall k int :: 0 <= k && k < 32 ==> pools[k] != nil && poolsize(pools[k]) == pow2(k)
+
+// trusted: sync.Pool hands out New() or a value previously Put; for the pools of a BytesPoolBy2n every such value is a
+// non-nil *[]byte of the pool's size (established by NewBytesPoolBy2n's New functions, preserved by Put below)
+//@ fieldspec BytesPoolBy2n.elem.Get(p *sync.Pool) any
+//@   ensures typeis(result, *[]byte) && as(result, *[]byte) != nil && len(*as(result, *[]byte)) == poolsize(p)
+//@   ensures isfresh(*as(result, *[]byte)) || true
+//@ fieldspec BytesPoolBy2n.elem.Put(p *sync.Pool, x any)
+//@   requires typeis(x, *[]byte) && as(x, *[]byte) != nil && len(*as(x, *[]byte)) == poolsize(p)
+
+//@ func (pools BytesPoolBy2n) Get(length int) *[]byte
+//@   requires poolsok(pools) && 0 <= length && length < 2147483648
+//@   ensures  result != nil && len(*result) > length
+//@   canary ensures result != nil && len(*result) > length + 1
+
+//@ func (pools BytesPoolBy2n) Put(buf *[]byte)
+//@   requires poolsok(pools) && buf != nil && exists k int :: 0 <= k && k < 32 && len(*buf) == pow2(k)
+
+// ---- UTF-8 clean-up ----------------------------------------------------------------------------
+//@ func findLastEndOfASCII(s []byte) int
+//@   ensures 0 <= result && result <= len(s)
+//@   ensures result > 0 ==> s[result-1] <= 127
+//@   ensures forall i int :: result <= i && i < len(s) ==> s[i] > 127
+//@   loop 1: invariant -1 <= i && i < len(s) && n == len(s) && forall j int :: i < j && j < len(s) ==> s[j] > 127
+//@   loop 1: decreases i + 1
+
+//@ func OverwriteNTruncate(main []byte, start int, tail string) []byte
+//@   requires 0 <= start && start <= len(main)
+//@   modifies main[start:]
+//@   ensures  ref(result) == ref(main) && off(result) == off(main) && len(result) == start + min(len(main) - start, len(tail))
+//@   ensures  forall i int :: 0 <= i && i < len(result) - start ==> result[start + i] == tail[i]
+
+// CleanUTF8(s): s up to and including its last ASCII byte, followed by the valid remainder of the tail (C09: "cut at a
+// valid UTF-8 boundary"); never longer than s; written in place
+//@ func CleanUTF8(s []byte) []byte
+//@   modifies s[:]
+//@   ensures  ref(result) == ref(s) && off(result) == off(s) && len(result) <= len(s)
+//@   ensures[ascii-kept]  forall i int :: 0 <= i && i < len(s) && old(s[i]) <= 127 ==> i < len(result)
+//@   ensures[prefix-unchanged] forall i int, k int :: 0 <= i && i <= k && k < len(s) && old(s[k]) <= 127 ==> result[i] == old(s[i])
+//@   ensures[no-ascii-no-growth] (forall k int :: 0 <= k && k < len(s) ==> old(s[k]) > 127) ==> len(result) <= len(s)
